@@ -636,6 +636,10 @@ MAP_BARE: t.Dict[str, t.Tuple[t.Any, t.Callable[[t.Dict[t.Any, t.Any]], t.Any]]]
 }
 
 
+class _Collide(Exception):
+    pass
+
+
 class Map(Node):
     def __init__(self, spec):
         super().__init__(spec)
@@ -697,9 +701,13 @@ class Map(Node):
 
         def mk():
             d = {kp.image: vp.image for (kp, vp) in zip(kparts, vparts)}  # type: ignore
+            if len(d) != len(items):
+                raise _Collide()
             return self.ctor(d)
         try:
             return Acc(mk())
+        except _Collide:
+            return Unspec('two distinct keys denote the same typed key: which entry survives is not documented')
         except Exception as e:
             return Rej(f'constructor raised {type(e).__name__}')
 
